@@ -99,6 +99,44 @@ CLAIMED["C14"] = dict(
     note="trusted: as C01",
     technique="Coq proof (totality and length bounds) + exhaustive short-name correspondence with independent splitter oracle")
 
+_HIST_NOTE = ("trusted: as C01; gen/hist.py (abstract message model, abstract walk) and gen/dnsgen.py decode_ref are independent oracles; "
+              "three known-finding classes (question-less object, QR gating, TTL write on OPT) are listed in known_findings.json")
+CLAIMED["C08"] = dict(
+    category="proof",
+    text="PARTIAL. The mutation API is modelled function by function in a state-and-error monad (coq/Model/Mutate.v, Walk.v) and run as an "
+         "executable script interpreter; proved so far: header setters leave every view field untouched (C08_header_setters_keep_view) and the "
+         "byte-level shape of a successful insertion (C08_insert_shape). The invariant itself - after any history the bytes are accepted and the "
+         "view, cached question and pointer flag equal/are sound w.r.t. a fresh parse - is decided each run by step-by-step correspondence on "
+         "random histories over parsed/synthesised objects plus a fresh-parse oracle after EVERY step; it is not yet a theorem.",
+    ref="6/C08", note=_HIST_NOTE,
+    technique="Coq model with frame lemmas (proof) + per-step correspondence and fresh-parse oracle over operation histories")
+CLAIMED["C09"] = dict(
+    category="proof",
+    text="PARTIAL. Proved: insertion splices exactly the record at the section's insertion offset with exactly one count incremented "
+         "(C09_insert_appends); the TTL setter changes exactly four bytes (C09_set_ttl_frame). The refinement of every operation to the abstract "
+         "message operations (set name / delete / insert / TTL / address / header / rename leave everything else equal) is decided each run "
+         "by correspondence and by decoding the bytes before and after every step and comparing with the abstract effect.",
+    ref="6/C09", note=_HIST_NOTE,
+    technique="Coq model with splice/frame lemmas (proof) + abstract-message refinement oracle over operation histories")
+CLAIMED["C10"] = dict(
+    category="proof",
+    text="Proved (unbounded): a successful insert never yields more than 8192 bytes whatever the starting size, the size test cannot underflow "
+         "(C10_insert_bound); when the insertion core fails (too large, second question, 65535 records) the object is unchanged because the "
+         "count is checked before any byte moves (C10_insert_core_atomic, C10_second_question_refused). PARTIAL: atomicity of the other failing "
+         "operations is decided each run by error-provoking histories (bad text, invalid/over-long/pointer-bearing names, tombstone reuse, "
+         "rename overflow, packets of 8100-9500 and >65535 bytes) with a before/after oracle.",
+    ref="6/C10", note=_HIST_NOTE,
+    technique="Coq proof (size bound, atomicity of insert) + error-provoking histories with before/after oracle")
+CLAIMED["C11"] = dict(
+    category="proof",
+    text="Proved for the abstract deletion walk, for any section, any record type and any set of records chosen for deletion: termination within "
+         "(|D|+1)(n+1) yields, final section = survivors in original order, every survivor yielded, only records of the current section are ever "
+         "yielded (C11_walk_terminates, C11_walk_exact, C11_yields_from_current_section). PARTIAL: that the concrete cursor code (delete, "
+         "tombstone, restart from the section start, count, emptied section reads as absent) refines this machine is decided each run by "
+         "correspondence over all deletion subsets of sections of 0..5 (thorough 0..8) records in all three sections and the question.",
+    ref="6/C11", note=_HIST_NOTE,
+    technique="Coq proof (abstract walk machine: termination measure, filter invariant) + exhaustive-subset correspondence")
+
 PENDING_REASON = "check not built yet in this round (model/theorems in progress; see DESIGN.md section 11 for the order of work)"
 
 
